@@ -224,7 +224,7 @@ def run_fsm(chk, build, factor):
     quick = chk.tier == "quick"
     cases = gen_fsm_exhaustive(4 if quick else 5)
     n_ex = len(cases)
-    cases += gen_fsm_random(chk, (4000 if quick else 60000) * factor)
+    cases += gen_fsm_random(chk, (2500 if quick else 60000) * factor)
     lines = [fsm_line(c) for c in cases]
     impl = run_harness(build, "eng_auth", lines, shards=8)
     pairs = []
